@@ -322,6 +322,8 @@ CB_CONTEXTS = {
         [("Select", "lambda e: {C}"), ("Select", "lambda x: x + 1")], 1, "e.jets().First()"),
     7: ("inside SelectMany's lambda at depth 1",
         [("SelectMany", "lambda e: e.jets().Select(lambda j: {C})")], 1, "j"),
+    10: ("inside a nested Where whose lambda is handed over BY KEYWORD (filter=lambda ...)",
+         [("Select", "lambda e: e.jets().Where(filter=lambda j: {C} > 0)")], 1, "j"),
     9: ("on an object whose type is a parameterised generic class (Evt.link() -> Link[Trk]); Link carries the placement",
         [("Select", "lambda e: {C}")], 1, "e.link()"),
     8: ("two chained typed calls, the second on the result of the (possibly rewritten) first: e.sub(101).m(102)",
